@@ -138,6 +138,38 @@ def _pmapped_locals(fn):
     return out
 
 
+def _handed_to_unbatching_method(ctx, ci, call, arg, depth=0) -> bool:
+    """`arg` is passed positionally to a method of the solver (directly, or through an attribute bound to jit(self.m)) whose corresponding
+    parameter is used only as the argument of _unbatch_results (or handed on in the same way): the un-batching happens one call further down"""
+    if depth > 3 or not isinstance(call, ast.Call) or not isinstance(call.func, ast.Attribute) or not is_self_attr(call.func):
+        return False
+    if arg not in call.args or call.keywords and any(k.value is arg for k in call.keywords):
+        return False
+    pos = call.args.index(arg)
+    from ..effects import Effects
+    names = {call.func.attr} | Effects(ctx.ct, ci).bound_methods().get(call.func.attr, set())
+    targets = [r for r in (ctx.ct.lookup(ci, n) for n in sorted(names)) if r is not None]
+    if not targets:
+        return False
+    for owner, fn in targets:
+        params = [a.arg for a in fn.args.args][1:]
+        if pos >= len(params):
+            return False
+        p = params[pos]
+        par = parents_of(fn)
+        uses = [n for n in ast.walk(fn) if isinstance(n, ast.Name) and n.id == p and isinstance(n.ctx, ast.Load)]
+        if not uses or any(isinstance(n, ast.Name) and n.id == p and isinstance(n.ctx, ast.Store) for n in ast.walk(fn)):
+            return False
+        for u in uses:
+            pu = par.get(id(u))
+            if isinstance(pu, ast.Call) and self_call_name(pu) == "_unbatch_results" and len(pu.args) == 1 and pu.args[0] is u:
+                continue
+            if _handed_to_unbatching_method(ctx, ci, pu, u, depth + 1):
+                continue
+            return False
+    return True
+
+
 def _taint(ctx, col):
     names = _pmapped_attrs(ctx)
     n_local = sum(len(_pmapped_locals(fn)) for ci in ctx.ct.by_qual.values() for fn in ci.methods.values())
@@ -164,7 +196,8 @@ def _taint(ctx, col):
                         bad = []
                         for u in uses:
                             pu = parents.get(id(u))
-                            if not (isinstance(pu, ast.Call) and self_call_name(pu) == "_unbatch_results" and len(pu.args) == 1 and pu.args[0] is u):
+                            if not (isinstance(pu, ast.Call) and self_call_name(pu) == "_unbatch_results" and len(pu.args) == 1 and pu.args[0] is u) \
+                                    and not _handed_to_unbatching_method(ctx, ci, pu, u):
                                 bad.append(u)
                         rebinds = [n for n in ast.walk(fn) if isinstance(n, ast.Name) and n.id == v and isinstance(n.ctx, ast.Store)]
                         ok = bool(uses) and not bad and len(rebinds) == 1
